@@ -6,9 +6,12 @@ CONSTANTS
   E = 3
   N = 0
   LInitU = TRUE
-  LInitNN = {}
+  LInitNN = {0, 1}
   DInit = {3}
   EmitOn = TRUE
+INVARIANT ClosedForm
+INVARIANT Counts
+INVARIANT Represent
 INVARIANT BestGrain
 INVARIANT Unassigned
 INVARIANT StoredError
